@@ -9,7 +9,7 @@ from .c14 import families, tup, RISK
 
 LEVEL = 'exploration'
 ENGINE = 'GRAPH+SEQ+SCHED'
-TECHNIQUE = 'bounded exhaustive enumeration of (object graph x patch dictionary) pairs against a reference patch semantics, every history of loads calls up to a depth bound compared with a fresh thread, and every interleaving of two concurrent patched loads up to a preemption bound'
+TECHNIQUE = 'bounded exhaustive enumeration of (object graph x patch dictionary) pairs against a reference patch semantics, every history of loads calls up to a depth bound compared with a fresh thread, and every interleaving of two concurrent patched loads up to a preemption bound; the caller-owned patch dictionaries are inputs (unchanged afterwards, reusable)'
 LEVEL_TEXT = ('every graph of the C14 space whose unpatched load works x every patch dictionary derived from its top-level state (override, new key, dict patch for an opt-in child, non-dict replacement, two-level patch, dict patch for a non-opt-in entry) is loaded with the real remote_pickle and compared with the reference semantics computed on the unpatched load; every history of <= 3 (thorough 4) loads mixing good/patched/corrupt/raising loads must leave the next load equal to the same load on a fresh thread; two concurrent patched loads are explored under every schedule within the preemption bound')
 LEVEL_NOTE = 'reference semantics is the statement read literally; graphs whose unpatched load already fails (C14 known finding: two opt-in siblings) are not judged here'
 
